@@ -164,6 +164,64 @@ class Encoding:
             [c for res in self.results.values() for c in res.extra] + self.assume
 
 
+# Second opinion (DESIGN 1.1, "diff two solvers"): every SECOND_EVERY-th `unsat` of z3 is re-decided by cvc5
+# (python wheel) on the SMT-LIB text z3 exports for exactly that query.  cvc5 `sat` is a solver
+# disagreement (harness error, exit 2); `unknown` / timeout is recorded and proves nothing.
+SECOND_EVERY = int(os.environ.get('BEARVERIF_CVC5_EVERY', '211'))
+SECOND = {'asked': 0, 'unsat': 0, 'unknown': 0, 'sat': 0, 'error': 0, 'time_s': 0.0, 'disagreements': []}
+_second_n = [0]
+
+
+def second_opinion(solver, force=False):
+    if not SECOND_EVERY and not force:
+        return None
+    _second_n[0] += 1
+    if not force and _second_n[0] % SECOND_EVERY:
+        return None
+    t0 = time.time()
+    try:
+        import cvc5
+        txt = solver.to_smt2()
+        tm = cvc5.TermManager()
+        slv = cvc5.Solver(tm)
+        slv.setOption('tlimit-per', '10000')
+        slv.setLogic('ALL')
+        ip = cvc5.InputParser(slv)
+        ip.setStringInput(cvc5.InputLanguage.SMT_LIB_2_6, txt, 'q')
+        sm = ip.getSymbolManager()
+        res = 'unknown'
+        while True:
+            c = ip.nextCommand()
+            if c.isNull():
+                break
+            o = c.invoke(slv, sm).strip()
+            if o in ('sat', 'unsat', 'unknown'):
+                res = o
+            elif o.startswith('(error'):
+                res = 'error'
+                break
+    except Exception as e:       # a parse problem is recorded, never a verdict
+        res = 'error'
+    SECOND['asked'] += 1
+    SECOND[res] += 1
+    SECOND['time_s'] += time.time() - t0
+    if res == 'sat':
+        SECOND['disagreements'].append(hashlib.sha1(txt.encode()).hexdigest()[:12])
+        d = os.path.join(os.path.dirname(os.path.dirname(__file__)), 'build')
+        os.makedirs(d, exist_ok=True)
+        with open(os.path.join(d, 'disagree-%s.smt2' % SECOND['disagreements'][-1]), 'w') as f:
+            f.write(txt)
+    return res
+
+
+def second_snapshot():
+    return {k: (list(v) if isinstance(v, list) else v) for k, v in SECOND.items()}
+
+
+def second_delta(before):
+    return {k: (SECOND[k][len(before[k]):] if isinstance(SECOND[k], list) else SECOND[k] - before[k]) for k in SECOND}
+
+
 class Discharger:
     """One solver per Encoding; push/pop per obligation; statistics for evidence."""
 
@@ -199,6 +257,8 @@ class Discharger:
         self.stats['queries'] += 1
         res = str(r)
         m = self.s.model() if res == 'sat' else None
+        if res == 'unsat':
+            second_opinion(self.s)
         self.s.pop()
         if res == 'unknown' and self.stats.get('retried_unknown', 0) < 3:
             # one retry in a fresh solver with six times the budget and another seed (a loaded
